@@ -9,6 +9,9 @@
 //!   settle               run every other task until nothing can run (time does not move)
 //!   adv <ns>             settle, tokio::time::advance(ns) (one turn of the time driver)
 //!   probe                settle, then record (now, target stopped?, is_finished of every handle)
+//!   open                 release the gate in the target's pre_start (only with the `S|` prefix)
+//! A line starting with `S|` uses an instant-spawned target whose pre_start blocks on a gate, so
+//! the target is in status Starting (active, accepting) until `open`.
 //! or   calib <a> <b> <c>   sleep(b) created at time a: complete when polled at a+c? (true/false)
 //! stdout: one Coq-syntax term per scenario (`mkObs log results exit probes`).
 //!
@@ -32,6 +35,7 @@ struct Shared {
 struct Ctx {
     sh: Arc<Shared>,
     start: Instant,
+    gate: Option<Arc<tokio::sync::Semaphore>>,
 }
 impl Ctx {
     fn now(&self) -> u64 {
@@ -50,6 +54,10 @@ impl Actor for Tgt {
     type State = Arc<Ctx>;
     type Arguments = Arc<Ctx>;
     async fn pre_start(&self, _: ActorRef<Msg>, a: Arc<Ctx>) -> Result<Arc<Ctx>, ActorProcessingErr> {
+        if let Some(g) = &a.gate {
+            g.acquire().await.expect("gate").forget();
+            a.sh.activity.fetch_add(1, Ordering::SeqCst);
+        }
         Ok(a)
     }
     async fn handle(&self, _: ActorRef<Msg>, m: Msg, st: &mut Arc<Ctx>) -> Result<(), ActorProcessingErr> {
@@ -156,14 +164,27 @@ async fn settle(sh: &Shared, hs: &[H], tgt: &ActorRef<Msg>) {
 }
 
 async fn scenario(line: &str) -> String {
+    let (parked, line) = match line.strip_prefix("S|") {
+        Some(rest) => (true, rest),
+        None => (false, line),
+    };
     let start = Instant::now();
     let sh = Arc::new(Shared::default());
-    let ctx = Arc::new(Ctx { sh: sh.clone(), start });
-    let (sup, _sh) = Actor::spawn(None, Sup, ctx.clone()).await.expect("sup");
-    let (tgt, _th) = Actor::spawn_linked(None, Tgt, ctx.clone(), sup.get_cell()).await.expect("tgt");
+    let gate = if parked { Some(Arc::new(tokio::sync::Semaphore::new(0))) } else { None };
+    let sctx = Arc::new(Ctx { sh: sh.clone(), start, gate: None });
+    let ctx = Arc::new(Ctx { sh: sh.clone(), start, gate: gate.clone() });
+    let (sup, _sh) = Actor::spawn(None, Sup, sctx).await.expect("sup");
     let mut hs: Vec<H> = Vec::new();
+    let (tgt, _keep): (ActorRef<Msg>, Box<dyn std::any::Any>) = if parked {
+        let (t, h) = ractor::ActorRuntime::<Tgt>::spawn_instant(None, Tgt, ctx.clone()).expect("tgt");
+        t.get_cell().link(sup.get_cell());
+        (t, Box::new(h))
+    } else {
+        let (t, h) = Actor::spawn_linked(None, Tgt, ctx.clone(), sup.get_cell()).await.expect("tgt");
+        (t, Box::new(h))
+    };
     settle(&sh, &hs, &tgt).await;
-    assert_eq!(tgt.get_status(), ActorStatus::Running);
+    assert_eq!(tgt.get_status(), if parked { ActorStatus::Starting } else { ActorStatus::Running });
     let mut probes: Vec<String> = Vec::new();
     for op in line.split(';') {
         let w: Vec<&str> = op.split_whitespace().collect();
@@ -199,6 +220,11 @@ async fn scenario(line: &str) -> String {
             "kill" => tgt.kill(),
             "drain" => {
                 let _ = tgt.drain();
+            }
+            "open" => {
+                if let Some(g) = &gate {
+                    g.add_permits(1);
+                }
             }
             "settle" => settle(&sh, &hs, &tgt).await,
             "adv" => {
